@@ -29,6 +29,9 @@ RULE = ("programs of 3-11 nodes with 1-4 effects of every kind (Effect::new, Ren
         "(oracle only) has effects whose bodies create effects (depth up to 2) and memos at run time. For small programs (2-3 effects, 2 writes) every schedule of up to 2 polls between "
         "the operations is enumerated; beyond that schedules are seeded-random. Every case runs under a 4 s watchdog. "
         "Since the anchor coverage audit half of the cases of every stream carry API VARIANTS on their nodes (fields the model's decoder does not read, so the traces are still compared with the model): every signal / memo / wrapper is read through one of get, with, *read(), track() + get_untracked(), try_get (and the untracked siblings); every signal is written through one of set, update, maybe_update(true), a write() guard, try_set, try_update, a SignalSetter (from(WriteSignal) / from(RwSignal) / map), update_untracked + notify, a MappedSignal / ArcMappedSignal view, write_untracked + notify (and notified through notify(), an untouched write guard or update(|_| {})); memos are built with new / new_with_compare, new_owning (the body returns the changed flag) or as the other handle type and converted; derived signals also as MaybeSignal::derive, MaybeProp (from / derive), Signal<Option<T>>::from, Signal::from(MaybeSignal), derive_local / stored_local / Signal<_, LocalStorage>::from, From<T>; effects also as Effect::new_sync, Effect::watch_sync, RenderEffect::new_isomorphic / new_with_value, ImmediateEffect::new_isomorphic / new_scoped / new_mut; an effect is also disposed through Dispose::dispose / Effect::stop on its handle; a case flag makes the executor hand out a NEW waker on every poll (older wakers are dead) and another one switches untrack to untrack_with_diagnostics. A 'wide' family puts 17-24 effects under ONE owner that the history pauses / resumes / disposes; an 'adopt' family (oracle only) creates Effect::new / watch / new_isomorphic effects in the middle of the history under the owner of an existing effect, which may be paused at that moment (op (10 e k)); a 'silent' family (oracle only) interleaves operations that are not writes. "
+        "A 'selfwrite-direct' family has effects / watch handlers that write a signal their own body / dependency fn reads directly (or through a memo "
+        "that is not pulled again afterwards), guarded so that they stop (clamp, count-up, normalise); 'selfwrite-imm' does the same with "
+        "ImmediateEffects (which recurse); some effect bodies register on_cleanup callbacks that read signals ((10 j)). "
         "Non-trivial = some effect ran at least twice; distinct = distinct case hash.")
 TRUSTED = [
     "Coq 8.16.1 kernel (coqc); no axioms: every theorem of Properties_C02.v is 'Closed under the global context'",
@@ -77,8 +80,11 @@ LEVEL_TEXT = ("Coq proofs over an executable model of EffectInner, the notificat
               "compared, small programs exhaustively over schedules) and an independent idle-consistency recomputation in Python.")
 LEVEL_NOTE = ("see Properties_C02.v: idle convergence is proved for every program outside the class self_feeding (effects and watch "
               "handlers may write signals, but not into their own static cone), for every static owner tree (pause / resume reach "
-              "every descendant: C02_pause_reaches_descendants); findings F-C02-a/b/c/e/f repaired, F-C02-d (that class; classify() here "
-              "uses the same predicate on the case's own effects) open; F-C02-g (an effect created under a paused owner runs: Owner::new() starts "
+              "every descendant: C02_pause_reaches_descendants); findings F-C02-a/b/c/e/f repaired, F-C02-d open: the THEOREM excludes the whole static class self_feeding, but classify() "
+              "identifies the finding by its narrow failing shape (rxlib.NarrowD: an effect reads memo j with tracking, writes a signal j depends on, and "
+              "j is pulled again in the same run); self-feeding programs without that shape (clamp / count-up / normalise on a directly read signal, "
+              "by the body or the watch handler; through a memo that is not pulled again; ImmediateEffects that recurse) converge on the unchanged code "
+              "and are JUDGED by the oracle and compared with the model ('selfwrite-direct', 'selfwrite-imm' families) although no theorem covers them; F-C02-g (an effect created under a paused owner runs: Owner::new() starts "
               "unpaused) open, found on the oracle-only 'adopt' family: the model's owner tree is static, so no theorem speaks about it "
               "(classify(): exactly the failure 'an effect created by (10 e k) under a paused owner, not resumed since, ran'); selectors COMPARED-NOT-PROVED for idle convergence (their "
               "model is a program transformation that falls into the excluded class); ImmediateEffect oracle-only.")
